@@ -99,6 +99,66 @@ def run_cfg(chk, facts, cfg):
     # of that element alone to additive statistics - so the state, hence the interval, is a function of the multisets
     # over the reals.  These are the fold / routing obligations of C01 (arithmetic front-ends) and C04 (paired and
     # unpaired feeders), re-established here on the same facts and reported under this property.
+    # "negating the data mirrors the interval exactly": float arithmetic is odd-symmetric operation by operation, so the
+    # mirror image is bit-exact as long as no *decision* on the way depends on the sign of the data.  Every condition the
+    # accumulation kernel, the register merge and `append` make on data values must be invariant under negating all of
+    # them (|a| < |b| is; a < |b| is not).
+    from ..statsmodel import StatsModel, by_ref
+    from ..symex import Summarizer
+    sm_ = pr.sm if hasattr(pr, 'sm') else StatsModel(facts)
+    if sm_.ok():
+        kp_ = sm_.kahan['path']
+        S_, C_, X_, BS_, BC_ = (T.sym(n_) for n_ in ('s', 'c', 'x', 'bs', 'bc'))
+
+        def negated(t):
+            if t[0] == 'sym' and t in (S_, C_, X_, BS_, BC_):
+                return T.op('neg', t)
+            if t[0] == 'op':
+                args = tuple(negated(a_) for a_ in t[2])
+                if t[1] == 'abs' and args[0][0] == 'op' and args[0][1] == 'neg':
+                    return ('op', 'abs', (args[0][2][0],))
+                if t[1] == 'neg' and args[0][0] == 'op' and args[0][1] == 'neg':
+                    return args[0][2][0]
+                return ('op', t[1], args)
+            if t[0] == 'call':
+                return ('call', t[1], tuple(negated(a_) for a_ in t[2]))
+            return t
+
+        def sign_free(atom):
+            if atom[0] == 'variant':
+                return True
+            syms = set()
+            T.walk(atom, lambda t: syms.add(t) if t[0] == 'sym' else None)
+            if not (syms & {S_, C_, X_, BS_, BC_}):
+                return True
+            na = negated(atom)
+            if na == atom:
+                return True
+            if atom[0] == 'op' and atom[1] in ('lt', 'le', 'eq') and len(atom[2]) == 2:
+                try:
+                    # a < b  ==  (-a') < (-b')  iff  b - a == a' - b' ... decided by normal form when both differences are real
+                    d0 = nf.sub(nf.of_term(atom[2][1]), nf.of_term(atom[2][0]))
+                    d1 = nf.sub(nf.of_term(na[2][1]), nf.of_term(na[2][0]))
+                    return nf.equal(d0, d1)
+                except (NotReal, Unsupported, KeyError, TypeError):
+                    return False
+            return False
+        targets = [('KahanSum += x', facts.trait_method('core::ops::AddAssign', kp_, 'add_assign', trait_args=lambda imp: [t.get('k') for t in imp.get('trait_args', [])] == ['param']),
+                    [by_ref(sm_.kahan_value(S_, [C_])), None], ['self', 'x']),
+                   ('KahanSum += KahanSum', facts.trait_method('core::ops::AddAssign', kp_, 'add_assign', trait_args=lambda imp: [t.get('adt') for t in imp.get('trait_args', [])] == [kp_]),
+                    [by_ref(sm_.kahan_value(S_, [C_])), sm_.kahan_value(BS_, [BC_])], ['self', 'rhs'])]
+        for tlabel, tfn, targs, tnames in targets:
+            if not chk.anchor(tlabel + sfx, tfn):
+                continue
+            try:
+                sx_ = Summarizer(facts, assume_no_overflow=True)
+                ps_ = sx_.summarize(tfn['id'], args=targs, arg_names=tnames)
+                chk.saw(facts, tfn, paths=len(ps_))
+                bad_ = sorted(set(T.show(a_)[:70] for p_ in ps_ for a_, pol in p_.guard if not sign_free(a_)))
+                chk.ob('%s:negation:guards:%s%s' % (PID, tlabel, sfx), 'E7-substitution', '%s: every condition on data values is invariant under negating the data (premise of the exact mirror image)' % tlabel,
+                       not bad_, 'depends on the sign of the data: %s' % bad_[:2] if bad_ else '', facts.loc(tfn['id']))
+            except (Unsupported, NotReal) as e:
+                chk.ob('%s:negation:guards:%s%s' % (PID, tlabel, sfx), 'E7-substitution', tlabel, None, 'undecided: %s' % e, facts.loc(tfn['id']))
     n_fold = 0
     try:
         from .. import core as core_
